@@ -22,6 +22,7 @@ import (
 	"fmt"
 	"hash"
 	"io"
+	"math"
 	"math/big"
 	"math/rand"
 	"strconv"
@@ -580,6 +581,12 @@ func OidFromString(s string) (asn1.ObjectIdentifier, error) {
 		n, err := strconv.Atoi(number)
 		if err != nil {
 			return nil, err
+		}
+
+		//encoding/asn1 writes such an arc but refuses to read it back ("base 128
+		//integer too large"), so the certificate could never be imported again
+		if n > math.MaxInt32 {
+			return nil, fmt.Errorf("cert: arc %v of oid '%v' is larger than %v", number, s, math.MaxInt32)
 		}
 
 		oid[i] = n
